@@ -23,6 +23,7 @@ from vlib import cbuild, coqbuild
 from vlib.common import CACHE, NCPU, REPO, VERIF, sh, sha_files
 
 PROP_FILE = "Properties_C06.v"
+LITERAL_KEY = "literal-budget:clock*9/10<BufferTime"
 INT_MAX = 2 ** 31 - 1
 
 # stdlib axioms behind Coq's primitive floats / Flocq / Reals (see the report; listed exactly as
@@ -535,7 +536,11 @@ def e2e_one(exe, ml_exe, c):
     if best["polls"] > 0 and best["lastpoll"] > deadline + gap:
         v["bad"] = ("search still polling at virtual time %d, later than deadline %d (tstart %d + hard) plus one polling "
                     "interval %d" % (best["lastpoll"], deadline, tstart, gap))
-    elif best["now"] > deadline + gap + (0 if c["threads"] == 1 and not c["maxnps"] else gap):
+    elif c["threads"] == 1 and best["now"] > deadline + gap:
+        # one thread: no node is searched between the stop decision and the bestmove output, so the
+        # stamp itself obeys the bound.  With helper threads the node-driven clock keeps being
+        # advanced by the helpers (they are told to stop after the bestmove is printed); that
+        # reporting latency is an artefact of the virtual clock and is only measured.
         v["bad"] = "bestmove at virtual time %d, later than deadline %d plus polling interval %d" % (best["now"], deadline, gap)
     return v
 
@@ -589,6 +594,55 @@ def end_to_end(ctx, ml_exe, pars, spec_fail, disagreements):
         v = res[0]
         ctx.sample({"e2e_script": uci_script(v["case"]) + [v["case"]["kind"]], "limits": v.get("limits"), "best": v.get("best"),
                     "deadline": v.get("deadline")})
+
+
+# ------------------------------------------------------------------ hardFactor updates (model vs an independent IEEE evaluation)
+def py_hard_of(f):
+    """Transcription of the block in Search::iterativeDeepening (CPython floats are C doubles)."""
+    if f < 0.20:
+        return 3.5
+    elif f < 0.40:
+        return 3.5 + (1.0 - 3.5) * (f - 0.20) / (0.40 - 0.20)
+    elif f < 0.60:
+        return 1.0
+    elif f < 0.85:
+        return 1.0 + (0.3 - 1.0) * (f - 0.60) / (0.85 - 0.60)
+    return 0.3
+
+
+def check_hardfactor_model(ctx, ml_exe, disagreements):
+    """The hardFactor updates live inside iterativeDeepening and cannot be called in isolation, so
+    the harness does not reach them; the extracted model is compared with a second transcription
+    evaluated by the host's IEEE doubles (bit patterns), and hf_ok is sampled on the results."""
+    rng = ctx.rng
+    lines, exp = [], []
+    for _ in range(ctx.scale(4000, 200000)):
+        tot = rng.choice([1, 2, 3, 10, 1000, rng.randint(1, 10 ** 9)])
+        first = rng.choice([0, tot, tot // 5, tot * 2 // 5, tot * 3 // 5, tot * 17 // 20, rng.randint(0, tot)])
+        f = first / float(tot)
+        lines.append("N %d %d" % (first, tot))
+        exp.append("N %s %s" % (f2bits(f), f2bits(py_hard_of(f))))
+    hfs = [1.0, 2.0, 3.5, 0.3, 0.65] + [rng.uniform(0.3, 3.5) for _ in range(200)]
+    for hf in hfs:
+        for hard in (3.5, 1.0, 0.3, rng.uniform(0.3, 3.5)):
+            lines.append("H %s %s" % (f2bits(hf), f2bits(hard)))
+            exp.append("H %s %s %s" % (f2bits(hf if not hf < 1.0 else 1.0), f2bits(hf if not hf < 2.0 else 2.0),
+                                         f2bits((hf + hard) / 2)))
+    rc, out, err = run_lines(ml_exe, lines)
+    if rc != 0 or len(out) != len(lines):
+        raise RuntimeError("driver failed on hardFactor cases: rc=%d %s" % (rc, err[-500:]))
+    bad = 0
+    for l, a, b in zip(lines, out, exp):
+        ctx.evaluated()
+        if a != b:
+            bad += 1
+            if bad <= 3:
+                disagreements.append(dict(kind="hardfactor", case=l, cpp="(python transcription) " + b, model=a, note=""))
+        if l[0] == "N":
+            h = bits2f(a.split()[2])
+            if not (0.3 <= h <= 3.5):
+                disagreements.append(dict(kind="hardfactor", case=l, cpp="hard=%r outside [0.3,3.5]" % h, model=a, note=""))
+    ctx.count("hardfactor_cases_model_vs_host_doubles", len(lines))
 
 
 # ------------------------------------------------------------------ the check
@@ -804,7 +858,8 @@ def run(ctx):
                         "x86-64 SSE2 double arithmetic of the harness = IEEE binary64 round-to-nearest-even"]
     ctx.assumptions = ["model = code is established by differential testing (every limit after every entry point equal), not by proof",
                        "the polling interval (nodes between two shouldStop calls, quiescence sub-trees) is a run-time quantity; the theorems bound the limit compared against, the end-to-end runs measure the gap",
-                       "wall-clock behaviour of the OS clock is out of scope (virtual clock in the end-to-end runs)"]
+                       "wall-clock behaviour of the OS clock is out of scope (virtual clock in the end-to-end runs)",
+                       "end-to-end runs with Threads > 1: the bound is checked on the main thread's stop decision (its last time test); the bestmove stamp additionally contains virtual time ticked by helper threads until they are stopped (measured, reported as max_report_latency_virtual_ms, not bounded)"]
     # (1) translate
     tx = load_tx()
     try:
@@ -843,6 +898,7 @@ def run(ctx):
     ctx.notes["distribution"] = {"alloc_in_range": n_alloc, "alloc_malformed": n_wild, "poll": n_poll,
                                  "correspondence_wall_s": round(time.time() - t0, 1)}
     ctx.traces_validated = ctx.evaluations
+    check_hardfactor_model(ctx, ml_exe, disagreements)
     end_to_end(ctx, ml_exe, pars, spec_fail, disagreements)
     if literal:
         ctx.notes["literal_reading"] = {
@@ -851,6 +907,24 @@ def run(ctx):
                     "the hard limit exceeds max(1, clock - BufferTime) (it never exceeds 10% of the clock, rounded up). "
                     "Proved as C06_literal_budget_refuted / C06_literal_budget_when_clock_large.",
             "examples": literal}
+
+        # a listed known finding is re-confirmed on the implementation (never a VIOLATION by itself:
+        # the bound the code implements is the one DESIGN.md fixes for C06_allocation_bounds)
+        hit = ctx.kf.match(ctx.prop, LITERAL_KEY)
+        if hit is not None:
+            ctx.known_finding(LITERAL_KEY, hit.get("what") or "hard limit exceeds max(1, clock - BufferTime) when clock*9/10 < BufferTime")
+    # outside the property's ranges (recorded, not judged): a negative clock for the mover makes
+    # both limits negative = "no limit", i.e. the engine searches until 'stop'
+    probe = dict(buf=1000, ponderOpt=0, wt=-5, bt=1000, wi=0, bi=0, mtg=0, depth=0, nodes=0, mate=0, mt=0, inf=0, fen=0,
+                 ponderCmd=0, in_range=False)
+    rc, out, _ = run_lines(cpp_exe, cpp_alloc_stream([probe]))
+    a = [l for l in out if l.startswith("A")]
+    if a:
+        g = parse_alloc(a[0])[1]
+        ctx.notes["out_of_range_observation"] = {
+            "uci": uci_script(probe), "implementation": a[0],
+            "note": ("mover's clock negative (outside the property's range 1..10^7): limits %s/%s, infinite flag %s -- "
+                     "the search has no deadline and answers only after 'stop'" % (g[0][0], g[0][1], g[1][5]))}
 
     corr_broken = bool(disagreements)
     if not proof_broken and not corr_broken and not spec_fail:
